@@ -20,9 +20,9 @@ Definition c07_done_check (e : config) (undet : bool) (now : Z) (refr_b refr_a :
   else if mp_started p <? sl_last x then negb (has_newsc outs) && eqb_slot_refresh x y
   else
     (sl_de y =? (sl_de x + 1) mod W32) && (sl_last y =? sl_last x) && (sl_rcnt y =? sl_rcnt x) &&
-    (if window_in_range e (sl_rcnt x) then
+    (if (0 <=? sl_last x) && (now <=? Int64Max) then
        Bool.eqb (has_newsc outs)
-                ((c_ucalls e <=? (sl_de x + 1) mod W32) && (sl_last x <? now - window_ns e (sl_rcnt x)) &&
+                ((c_ucalls e <=? (sl_de x + 1) mod W32) && window_elapsed e (sl_rcnt x) (sl_last x) now &&
                  negb (sl_refreshing x))
      else true) &&
     (if has_newsc outs then
@@ -120,7 +120,7 @@ Lemma has_newsc_du s k : has_newsc (du_outs s k) = match k with KNone => false |
 Proof. destruct k; reflexivity. Qed.
 
 Lemma done_check_holds s p oc r e refr_b refr_a :
-  cfg_ucalls s = c_ucalls e -> cfg_ums s = c_ums e -> InvU s ->
+  cfg_ucalls s = c_ucalls e -> cfg_ums s = c_ums e -> InvU s -> 0 <= sl_rcnt r ->
   match snd (du_result s p oc r) with
   | KOk => aget refr_a (b_next s) = Some (pk_slot p)
   | _ => refr_a = refr_b
@@ -128,7 +128,7 @@ Lemma done_check_holds s p oc r e refr_b refr_a :
   c07_done_check e (b_undet s) (b_now s) refr_b refr_a (mpick_of p) oc
                  (du_outs s (snd (du_result s p oc r))) r (fst (du_result s p oc r)) = true.
 Proof.
-  intros Hc1 Hc2 HU. unfold du_result, c07_done_check.
+  intros Hc1 Hc2 HU Hrc. unfold du_result, c07_done_check.
   cbn [mp_deadline mp_started mp_slot mpick_of]. unfold eqb_slot_refresh.
   destruct (b_undet s) eqn:Eu; cbn [negb].
   2:{ intros _. cbn [fst snd du_outs has_newsc existsb negb andb]. apply slot_refresh_eqb_refl. }
@@ -139,36 +139,38 @@ Proof.
   destruct (pk_started p <? sl_last r).
   { intros _. cbn [fst snd du_outs has_newsc existsb negb andb]. apply slot_refresh_eqb_refl. }
   cbv zeta.
-  assert (Htr : window_in_range e (sl_rcnt r) = true ->
+  (* the monitor's guard: the clock is an int64 count of nanoseconds *)
+  assert (Htr : (0 <=? sl_last r) && (b_now s <=? Int64Max) = true ->
                 du_trigger s r = (c_ucalls e <=? (sl_de r + 1) mod W32) &&
-                                 (sl_last r <? b_now s - window_ns e (sl_rcnt r))).
-  { intros Hw. apply du_trigger_eq; auto. lia. }
+                                 window_elapsed e (sl_rcnt r) (sl_last r) (b_now s)).
+  { intros Hw. apply andb_true_iff in Hw. destruct Hw as [Hw1 Hw2].
+    apply du_trigger_eq; auto; [lia|]. rewrite MaxInt64_Int64Max. lia. }
   destruct (du_trigger s r) eqn:Etr.
   - destruct (sl_refreshing r) eqn:Erf.
     + intros _. rewrite has_newsc_du. cbn [fst snd sl_de sl_last sl_rcnt sl_refreshing sl_set_de].
       rewrite !Z.eqb_refl, Erf, eqb_reflx. cbn [andb negb].
-      destruct (window_in_range e (sl_rcnt r)); [|reflexivity]. rewrite andb_false_r. reflexivity.
+      destruct ((0 <=? sl_last r) && (b_now s <=? Int64Max)); [|reflexivity]. rewrite andb_false_r. reflexivity.
     + destruct (cannot_create s).
       * cbn [snd]. intros ->. rewrite has_newsc_du.
         cbn [fst snd sl_de sl_last sl_rcnt sl_refreshing sl_conn sl_set_de du_outs count_newsc filter length news flat_map app].
         rewrite !Z.eqb_refl, Erf, N.eqb_refl. cbn [andb negb Nat.eqb].
         rewrite (list_eqb_refl nnat_eqb) by apply nnat_eqb_refl.
-        destruct (window_in_range e (sl_rcnt r)); [|reflexivity].
+        destruct ((0 <=? sl_last r) && (b_now s <=? Int64Max)) eqn:Eg; [|reflexivity].
         rewrite <- Htr by reflexivity. reflexivity.
       * intros Ha. cbn [snd] in Ha. rewrite has_newsc_du.
         cbn [fst snd sl_de sl_last sl_rcnt sl_refreshing sl_conn sl_set_de sl_set_refreshing
              du_outs count_newsc filter length news flat_map app].
         rewrite !Z.eqb_refl, N.eqb_refl, Ha, !Nat.eqb_refl. cbn [andb negb].
-        destruct (window_in_range e (sl_rcnt r)); [|reflexivity].
+        destruct ((0 <=? sl_last r) && (b_now s <=? Int64Max)) eqn:Eg; [|reflexivity].
         rewrite <- Htr by reflexivity. reflexivity.
   - intros _. rewrite has_newsc_du. cbn [fst snd sl_de sl_last sl_rcnt sl_refreshing sl_set_de].
     rewrite !Z.eqb_refl, eqb_reflx. cbn [andb].
-    destruct (window_in_range e (sl_rcnt r)); [|reflexivity].
+    destruct ((0 <=? sl_last r) && (b_now s <=? Int64Max)) eqn:Eg; [|reflexivity].
     rewrite <- Htr by reflexivity. reflexivity.
 Qed.
 
 Lemma c07_done_holds raw s ms j oc rk order s' outs rt ub :
-  Inv s -> InvU s -> Sim s ms -> rt <> RBadOp ->
+  Inv s -> InvU s -> clock_ok s -> Sim s ms -> rt <> RBadOp ->
   full_step raw s (OpDone j oc rk) order = (s', outs, rt, ub) ->
   match nth_error (ms_picks ms) j with
   | Some p =>
@@ -181,7 +183,7 @@ Lemma c07_done_holds raw s ms j oc rk order s' outs rt ub :
   | None => true
   end = true.
 Proof.
-  intros HI HU HS Hrt. rewrite full_step_eq. cbn [step].
+  intros HI HU HC HS Hrt. rewrite full_step_eq. cbn [step].
   destruct (Done s j oc rk) as [[s1 o1] r1] eqn:Ed.
   destruct (resolve_blocked s1) as [s2 ub2] eqn:Er. intros E; inv E.
   destruct (Done_spec _ _ _ _ _ _ _ HI Ed Hrt) as (p & r & Hj & Hst & Hr & H1 & H2 & H3). cbv zeta in H1, H2, H3.
@@ -215,6 +217,7 @@ Proof.
   - change (cfg_ucalls s0) with (cfg_ucalls s). unfold cfg_ucalls, eff. rewrite Ec, Hc. reflexivity.
   - change (cfg_ums s0) with (cfg_ums s). unfold cfg_ums, eff. rewrite Ec, Hc. reflexivity.
   - exact HU.
+  - change (sl_rcnt r0) with (sl_rcnt r). apply (clock_ok_slot s (pk_slot p) r HC Hr).
   - fold res. destruct (snd res); try reflexivity. cbn [du_refr].
     rewrite aget_asort; [apply aget_aset_eq|].
     apply NoDup_akeys_aset. change (b_refr s0) with (b_refr s). apply (nd_refr (proj1 HI)).
